@@ -88,6 +88,8 @@ package bill
 //@   ensures [sum] old(l.Item) != nil && old(l.Item.Price) != nil ==> err == nil && l.Sum != nil && *l.Sum == old(lineSumS(l, tax.upS(*l.Item.Price, currency.subunits(cur)), currency.subunits(cur), rr))
 //@   ensures [price] old(l.Item) != nil && old(l.Item.Price) != nil ==> l.Item.Price != nil && *l.Item.Price == old(tax.upS(*l.Item.Price, currency.subunits(cur)))
 //@   ensures [noprice] old(l.Item) != nil && old(l.Item.Price) == nil ==> err == nil && l.Sum == nil && l.Total == nil
+//@   at-call calculateLineDiscounts assert [base] $arg1 == old(lineSumS(l, tax.upS(*l.Item.Price, currency.subunits(cur)), currency.subunits(cur), rr)) && $arg2 == $arg1
+//@   at-call calculateLineCharges assert [base] $arg2 == old(lineSumS(l, tax.upS(*l.Item.Price, currency.subunits(cur)), currency.subunits(cur), rr)) && $arg1 == old(l.Quantity)
 //
 // ---- C04: presentation rounding of the totals writes only calculated fields (never the
 // supplied rounding amount) and brings each to the currency's decimals
